@@ -215,6 +215,33 @@ func c17RunCase(c c17Case, idx int, w *c17World, dir string) *c17Bad {
 		}
 		<-throttle
 	}
+	// a host the user approved in this session comes back with ANOTHER key (a reconnect that ends up at a different machine):
+	// the approval was for the key, not for the name - it must be refused or put before the user again (answered "no")
+	for _, h := range proceeded {
+		if len(pending) == 0 {
+			break
+		}
+		again := make(chan error, 1)
+		throttle <- struct{}{}
+		go func(h string) { again <- wrap(w.server[h], w.remote[h], w.other) }(h)
+		select {
+		case u := <-kc.unknownCh:
+			u.responseCh <- dontTrustHost
+			if err := <-again; err == nil {
+				return &c17Bad{Case: c, Problem: "host " + h + " with a changed key passed although the question was answered no"}
+			}
+		case err := <-again:
+			if err == nil {
+				return &c17Bad{Case: c, Problem: "host " + h + " was trusted in this session with one key, a second dial presenting another key passed without asking"}
+			}
+		case <-time.After(5 * time.Second):
+			return &c17Bad{Case: c, Problem: "second dial of host " + h + " with a changed key never got an answer"}
+		}
+		select {
+		case <-throttle:
+		default:
+		}
+	}
 	afterB, _ := os.ReadFile(path)
 	after := string(afterB)
 	// the old lines that stay are a subsequence of the file (order kept): take their text as it was written
@@ -345,6 +372,52 @@ func TestC17Loop(t *testing.T) {
 			time.Sleep(10 * time.Millisecond)
 		}
 		res["approved_file_has_entry"] = has
+	}
+	{
+		// an unknown host that shows up late: 2.6 s after the client started (the prompt loop has gone round once with
+		// nothing to ask), trust-all: it must still be dealt with
+		path := filepath.Join(dir, "kh3")
+		throttle := make(chan struct{}, 8)
+		cbi, _ := NewKnownHostsCallback(path, true, throttle)
+		kc := cbi.(KnownHostsCallback)
+		ctx, cancel := context.WithCancel(context.Background())
+		c17Silence(func() {
+			go kc.PromptAddHosts(ctx)
+			time.Sleep(2600 * time.Millisecond)
+			throttle <- struct{}{}
+			got := make(chan error, 1)
+			go func() { got <- kc.Wrap()(w.server["h1"], w.remote["h1"], w.key["h1"]) }()
+			select {
+			case err := <-got:
+				res["late_host_proceeds"] = err == nil
+			case <-time.After(8 * time.Second):
+				res["late_host_proceeds"] = false
+			}
+		})
+		cancel()
+	}
+	{
+		// which callback a client gets: with a private key file of its own (--key) the host keys are checked like with any
+		// other way of authenticating - an unknown host is put before the user, it does not pass by itself
+		home := filepath.Join(dir, "home")
+		os.MkdirAll(filepath.Join(home, ".ssh"), 0700)
+		oldHome := os.Getenv("HOME")
+		os.Setenv("HOME", home)
+		keyPath := filepath.Join(dir, "id_custom")
+		GeneratePrivatePublicKeyPairIfNotExists(keyPath, 2048)
+		throttle := make(chan struct{}, 8)
+		methods, cb := InitSSHAuthMethods(nil, nil, false, throttle, keyPath)
+		os.Setenv("HOME", oldHome)
+		res["keyfile_auth_methods"] = len(methods)
+		throttle <- struct{}{}
+		got := make(chan error, 1)
+		go func() { got <- cb.Wrap()(w.server["h2"], w.remote["h2"], w.key["h2"]) }()
+		select {
+		case err := <-got:
+			res["keyfile_unknown_host_passes_unasked"] = err == nil
+		case <-time.After(700 * time.Millisecond):
+			res["keyfile_unknown_host_passes_unasked"] = false // it waits for the user's answer
+		}
 	}
 	vWriteJSON(t, "VERIF_OUT", res)
 }
